@@ -260,6 +260,24 @@ def facts():
                                                  "gen.chunk" if re.search(r"\bchunk\b", expr) else "fresh")
             gl.append("%s <- %s" % (field, o))
     f["flow_generator_resume"] = gl
+    # ---- C19: the entry points' shared prologue (parse, import requests, module env, bindings, compile, VM) -------
+    def call_seq(body, stop=None):
+        if stop and stop in body:
+            body = body[:body.index(stop)]
+        calls = re.findall(r"\b(?:self\.|Self::|Compiler::|Parser::|BytecodeVM::)([a-z_][a-z0-9_]*)\s*\(", body)
+        skip = {"cheap_clone", "clone", "is_none", "is_some", "as_ref", "take", "begin_run"}
+        return [c for c in calls if c not in skip]
+    mod_fns = {n: b for n, b, _ in functions(mod_src)}
+    f["prologue_eval"] = call_seq(mod_fns.get("eval", ""), "BytecodeVM::with_guard")
+    f["prologue_prepare"] = call_seq(mod_fns.get("prepare", ""), "BytecodeVM::with_guard")
+    f["prologue_resume"] = call_seq(mod_fns.get("setup_vm_from_program", ""), "BytecodeVM::with_guard")
+    ctx_src = dict(rust_files("src/ffi")).get("src/ffi/context.rs", "")
+    capi = []
+    for n, b, _ in functions(ctx_src):
+        if n in ("tsrun_prepare", "tsrun_step", "tsrun_run"):
+            for m in sorted(set(re.findall(r"\.interp\s*\.\s*([a-z_]+)\s*\(", b))):
+                capi.append("%s: %s" % (n, m))
+    f["capi_entry_calls"] = sorted(capi)
     # ---- C01: the Pratt table -----------------------------------------------------------
     par = dict(inter).get("src/parser.rs", "")
     body = next((b for n, b, _ in functions(par) if n == "current_binary_op"), "")
@@ -299,6 +317,7 @@ GROUPS = {
     "C01": ["binop_table"],
     "C13": ["constants"],
     "C17": ["ffi_exports"],
+    "C19": ["prologue_eval", "prologue_prepare", "prologue_resume", "capi_entry_calls"],
 }
 
 
